@@ -278,15 +278,24 @@ def c06_collect(chk, forms: list[dict], name: str):
     chk.add(traces_validated_against_impl=len(cases), evaluations=sum(len(c["obs"]["ids"]) for c in cases))
     chk.note(f"{len(forms)} abstract forms in {len(mods)} JIT modules: compile+call {t1 - t0:.1f}s, "
              f"TLC judge {jr.wall_s if jr else 0:.1f}s")
+    # one violation per (field, cell, set of integral types): the simplest failing form is the reproducer
+    groups: dict = {}
     for c in cases:
         mm = verdict[c["id"]]
         if mm:
-            fk = form_key(c["form"])
-            field = mm[0][0]
-            chk.violation(f"C06:{field}:{fk}",
-                          f"ufcx_form of {fk}: {field} expected {mm[0][1]} observed {mm[0][2]}"
-                          + (f" (+{len(mm) - 1} more fields)" if len(mm) > 1 else ""),
-                          {"form": c["form"], "obs": c["obs"], "mismatches": mm})
+            F = c["form"]
+            present = [TYPE_ABBR[t] for t in ITYPES if any(i["type"] == t for i in F["integrals"])]
+            groups.setdefault(f"C06:{mm[0][0]}:{F['cell']}:types={'+'.join(present)}", []).append((c, mm))
+    for key, lst in groups.items():
+        lst.sort(key=lambda x: (len(x[0]["form"]["integrals"]), len(form_key(x[0]["form"])), form_key(x[0]["form"])))
+        c, mm = lst[0]
+        fk = form_key(c["form"])
+        chk.violation(key,
+                      f"ufcx_form of {fk}: {mm[0][0]} expected {mm[0][1]} observed {mm[0][2]}"
+                      + (f" (+{len(mm) - 1} more fields)" if len(mm) > 1 else "")
+                      + (f"; {len(lst) - 1} more failing form(s) of this class" if len(lst) > 1 else ""),
+                      {"form": c["form"], "obs": c["obs"], "mismatches": mm,
+                       "other_failing_forms": [form_key(x[0]["form"]) for x in lst[1:41]]})
     for it, r in failed:
         fk = form_key(it["form"])
         chk.violation(f"C06:no-descriptor:{fk}", f"form {fk} of the domain did not compile/load: {r.get('error')}",
@@ -560,6 +569,768 @@ def c06_worker(job: dict) -> list:
 
 
 # ===========================================================================
+# C20  Options.tla (option sources) and CliPair.tla (header/source pair)
+# ===========================================================================
+
+OPT_ORDER = ["scalar_type", "sum_factorization", "table_rtol", "part", "language"]
+OPT_THEOREMS = ["TypeOK", "NothingSetGivesDefault", "CliWins", "PwdBeatsUser"]
+
+# tensor-product P2 mass form on a quadrilateral: every modelled option has a visible effect on it
+TINY_UFL = """\
+import basix
+import basix.ufl
+from ufl import Constant, FunctionSpace, Mesh, TestFunction, TrialFunction, dx, inner
+
+ct = basix.CellType.quadrilateral
+
+
+def tp(degree, shape=None):
+    e = basix.ufl.wrap_element(
+        basix.create_tp_element(basix.ElementFamily.P, ct, degree, basix.LagrangeVariant.gll_warped))
+    return e if shape is None else basix.ufl.blocked_element(e, shape=shape)
+
+
+mesh = Mesh(tp(1, (2,)))
+V = FunctionSpace(mesh, tp(2))
+u = TrialFunction(V)
+v = TestFunction(V)
+k = Constant(mesh)
+a = k * inner(u, v) * dx
+"""
+
+
+def opt_model_check(chk, maxset: int):
+    d = tlc.stage("opt-mc", ["Options"])
+    cfg = _tlc_cfg("OSpec", {"MaxSet": maxset}, OPT_THEOREMS) + "PROPERTY StepLocal\n"
+    r = tlc.run(d, "Options", cfg_text=cfg, workers=min(8, common.NCPU), timeout=1500)
+    tlc.must_ok(r, "Options.tla theorems")
+    if r.violated:
+        raise MachineryError(f"Options.tla: theorem {r.violated} fails - the specification is wrong")
+    chk.add(states=r.distinct, transitions=r.generated)
+    chk.note(f"Options.tla: {r.distinct} configurations with <= {maxset} (option, source) pairs set; "
+             f"{', '.join(OPT_THEOREMS)}, StepLocal hold ({r.wall_s:.1f}s)")
+
+
+def opt_assignments() -> dict:
+    d = tlc.stage("opt-emit", ["Options"])
+    r = tlc.run(d, "Options", cfg_text=_tlc_cfg("OSpec", {"MaxSet": 0}, ["EmitAssignments"]), workers=1, timeout=300)
+    tlc.must_ok(r, "Options.tla emit")
+    out: dict = {o: [] for o in OPT_ORDER}
+    for v in printed_values(r.out, ("ASSIGN",)):
+        out[v[1]].append({k: v[2][k] for k in ("cli", "pwd", "user")})
+    if any(not out[o] for o in OPT_ORDER):
+        raise MachineryError("Options.tla emitted no assignments:\n" + r.out[-1500:])
+    return out
+
+
+def opt_configs(assign: dict, n: int, rng: random.Random) -> list[dict]:
+    """n configurations; each option cycles through a seed-shuffled list of *all* its TLC-emitted
+    assignments, so every (option, assignment) occurs floor(n/27) times or more, in varying company."""
+    cols = {}
+    for o in OPT_ORDER:
+        col: list = []
+        while len(col) < n:
+            a = list(assign[o])
+            rng.shuffle(a)
+            col += a
+        cols[o] = col[:n]
+    return [{o: cols[o][i] for o in OPT_ORDER} for i in range(n)]
+
+
+def _json_value(o: str, v: str):
+    if o == "sum_factorization":
+        return v == "true"
+    if o == "table_rtol":
+        return float(v)
+    return v
+
+
+RTOL_TOKENS = ["1e-06", "0.001", "1e-05"]
+
+
+def _token(o: str, v) -> str:
+    if o == "sum_factorization":
+        return {True: "true", False: "false"}.get(v, repr(v)) if isinstance(v, bool) else repr(v)
+    if o == "table_rtol":
+        for t in RTOL_TOKENS:
+            if isinstance(v, (int, float)) and float(t) == float(v):
+                return t
+        return repr(v)
+    return v if isinstance(v, str) else repr(v)
+
+
+def parse_banner(text: str) -> dict | None:
+    import ast
+    lines = text.splitlines()
+    try:
+        i = next(k for k, ln in enumerate(lines) if "generated with the following options" in ln)
+    except StopIteration:
+        return None
+    body = []
+    for ln in lines[i + 2:]:
+        m = re.match(r"^(//|#)  (.*)$", ln)
+        if not m:
+            break
+        body.append(m.group(2))
+    try:
+        d = ast.literal_eval("\n".join(body))
+    except Exception:  # noqa: BLE001
+        return None
+    return d if isinstance(d, dict) else None
+
+
+def run_option_case(case: dict, root: Path) -> dict:
+    d = root / f"case{case['id']}"
+    cwd, xdg = d / "cwd", d / "xdg"
+    (xdg / "ffcx").mkdir(parents=True)
+    cwd.mkdir(parents=True)
+    (cwd / "tiny.py").write_text(TINY_UFL)
+    cfg = case["cfg"]
+    for src, path in (("user", xdg / "ffcx" / "ffcx_options.json"), ("pwd", cwd / "ffcx_options.json")):
+        vals = {o: _json_value(o, cfg[o][src]) for o in OPT_ORDER if cfg[o][src] != "unset"}
+        if vals:
+            path.write_text(json.dumps(vals))
+    args = []
+    for o in OPT_ORDER:
+        v = cfg[o]["cli"]
+        if v != "unset":
+            args += [f"--{o}"] if o == "sum_factorization" else [f"--{o}", v]
+    env = common.child_env({"XDG_CONFIG_HOME": str(xdg), "HOME": str(d)})
+    p = subprocess.run([common.PY, "-m", "ffcx", *args, "tiny.py"], cwd=str(cwd), env=env, capture_output=True,
+                       text=True, timeout=600)
+    files = sorted(f for f in os.listdir(cwd) if f not in ("tiny.py", "ffcx_options.json"))
+    obs = {"generated": False, "files": files, "rc": p.returncode, "stderr": p.stderr[-600:], "argv": args,
+           "banner": {o: "?" for o in OPT_ORDER}, "behaviour": {o: "n/a" for o in OPT_ORDER}}
+    if p.returncode != 0:
+        return obs
+    if files == ["tiny_numba.py"]:
+        lang, src = "numba", (cwd / "tiny_numba.py").read_text()
+        btxt = src
+        m = re.search(r"weights_\w+ = np\.array\(.*?dtype=np\.(\w+)\)", src)
+        styp = m.group(1) if m else "?"
+        m = re.search(r"^\s+rank = (\d+)\s*$", src, re.M)
+    elif files == ["tiny.c", "tiny.h"]:
+        lang, src, btxt = "C", (cwd / "tiny.c").read_text(), (cwd / "tiny.h").read_text()
+        m = re.search(r"void tabulate_tensor_integral_\w+\(\s*(\w+)\s*\*\s*restrict A", src)
+        styp = {"float": "float32", "double": "float64"}.get(m.group(1), m.group(1)) if m else "?"
+        m = re.search(r"\.rank = (\d+)", src)
+    else:
+        return obs
+    obs["generated"] = True
+    obs["behaviour"].update(language=lang, scalar_type=styp,
+                            sum_factorization="true" if re.search(r"\biq0\b", src) else "false",
+                            part={"1": "diagonal", "2": "full"}.get(m.group(1), "?") if m else "?")
+    b = parse_banner(btxt)
+    if b is not None:
+        obs["banner"] = {o: _token(o, b.get(o, "missing")) for o in OPT_ORDER}
+    if lang == "C":  # the source carries the banner too
+        b2 = parse_banner(src)
+        if b2 is not None and b is not None and any(_token(o, b2.get(o)) != obs["banner"][o] for o in OPT_ORDER):
+            obs["banner"] = {o: "header/source banners differ" for o in OPT_ORDER}
+    return obs
+
+
+def opt_judge(cases: list[dict]):
+    d = tlc.stage("opt-judge", ["Options", "OptionsJudge"])
+    cf = d / "cases.json"
+    cf.write_text(json.dumps([{"id": c["id"], "cfg": c["cfg"],
+                               "obs": {k: c["obs"][k] for k in ("generated", "banner", "behaviour")}} for c in cases]))
+    r = tlc.run(d, "OptionsJudge", cfg_text=_tlc_cfg("JSpec", {"MaxSet": 0}, ["Judge"]), workers=1,
+                env={"CASE_FILE": str(cf)}, timeout=900)
+    tlc.must_ok(r, "OptionsJudge")
+    if r.violated:
+        raise MachineryError("OptionsJudge stopped: " + str(r.violated) + "\n" + r.out[-2000:])
+    verdict: dict = {}
+    for v in printed_values(r.out, ("OK", "VIOL")):
+        if v[0] == "OK":
+            verdict.setdefault(v[1], [])
+        else:
+            verdict.setdefault(v[1], []).append(tuple(v[2:6]))
+    missing = [c["id"] for c in cases if c["id"] not in verdict]
+    if missing:
+        raise MachineryError(f"OptionsJudge gave no verdict for {missing[:10]}:\n{r.out[-1500:]}")
+    return verdict, r
+
+
+def c20_options(chk, rng: random.Random, n: int, configs: list[dict] | None = None):
+    if configs is None:
+        configs = opt_configs(opt_assignments(), n, rng)
+    cases = [{"id": i, "cfg": c} for i, c in enumerate(configs)]
+    root = common.scratch("c20-opt")
+    t0 = time.time()
+    with ThreadPoolExecutor(NWORKERS) as ex:
+        for c, o in zip(cases, ex.map(lambda c: run_option_case(c, root), cases)):
+            c["obs"] = o
+    t1 = time.time()
+    verdict, r = opt_judge(cases)
+    chk.add(states=r.distinct, transitions=r.generated, traces_validated_against_impl=len(cases),
+            evaluations=len(cases) * len(OPT_ORDER))
+    chk.note(f"{len(cases)} option-source configurations run through `python -m ffcx` in {t1 - t0:.1f}s, "
+             f"TLC judge {r.wall_s:.1f}s")
+    for c in cases:
+        per_opt: dict = {}
+        for (o, witness, exp, got) in verdict[c["id"]]:
+            per_opt.setdefault(o, []).append((witness, exp, got))
+        for o, lst in per_opt.items():
+            a = c["cfg"].get(o, {})
+            proj = ",".join(f"{s}={a.get(s, '?')}" for s in ("cli", "pwd", "user")) if a else "-"
+            chk.violation(f"C20:precedence:{o}:{proj}",
+                          f"python -m ffcx {' '.join(c['obs']['argv'])} with option sources {o}: {proj}: Effective = "
+                          f"{lst[0][1]} but " + ", ".join(f"{w} says {g}" for w, _, g in lst),
+                          {"kind": "options", "cfg": c["cfg"], "obs": c["obs"]})
+    return cases, verdict
+
+
+def c20_option_controls(cases, verdict, rng) -> int:
+    """Corrupt one recorded value -> TLC must reject."""
+    good = [c for c in cases if not verdict[c["id"]]]
+    rng.shuffle(good)
+    mut = []
+    for c in good[:10]:
+        o = rng.choice(OPT_ORDER)
+        c2 = json.loads(json.dumps(c))
+        c2["obs"]["banner"][o] = "corrupted"
+        mut.append(dict(c2, id=len(mut)))
+        c3 = json.loads(json.dumps(c))
+        c3["obs"]["behaviour"]["language"] = "numba" if c3["obs"]["behaviour"]["language"] == "C" else "C"
+        mut.append(dict(c3, id=len(mut)))
+    if not mut:
+        return 0
+    v, _ = opt_judge(mut)
+    if any(not v[m["id"]] for m in mut):
+        raise MachineryError("negative control: OptionsJudge accepted a corrupted observation")
+    return len(mut)
+
+
+# ---------------------------------------------------------------------------
+# header/source pair
+
+GENERATED_UFL = {
+    "several forms-v2.0.py": """\
+import basix.ufl
+import numpy as np
+from ufl import (Coefficient, Constant, FunctionSpace, Mesh, TestFunction, TrialFunction, avg, dot, dP, dS, ds, dx,
+                 grad, inner)
+
+cell = "triangle"
+mesh = Mesh(basix.ufl.element("Lagrange", cell, 1, shape=(2,)))
+V = FunctionSpace(mesh, basix.ufl.element("Lagrange", cell, 2))
+Q = FunctionSpace(mesh, basix.ufl.element("Lagrange", cell, 1))
+u, v = TrialFunction(V), TestFunction(V)
+f = Coefficient(Q)
+g = Coefficient(V)
+kappa = Constant(mesh)
+K = Constant(mesh, shape=(2, 2))
+a = kappa * inner(grad(u), grad(v)) * dx + g * inner(u, v) * ds(1)
+L = inner(f, v) * dx(2) + inner(f, v) * dx((1, 3)) + inner(dot(K, grad(g)), grad(v)) * dx
+M = f * g * dx + avg(f) * dS + f * dP
+mass = inner(u, v) * dx
+stiff = inner(dot(K, grad(u)), grad(v)) * dx(degree=1)
+forms = [a, L, M, mass, stiff, f * dx(4)]
+flux = dot(K, grad(g))
+pts = np.array([[0.25, 0.25], [0.5, 0.0], [0.0, 1.0]])
+expressions = [(flux, pts), (f * kappa, pts)]
+""",
+    "3d.prism-mesh.py": """\
+import basix.ufl
+from ufl import Coefficient, Constant, FunctionSpace, Mesh, TestFunction, TrialFunction, dP, ds, dx, inner
+
+cell = "prism"
+mesh = Mesh(basix.ufl.element("Lagrange", cell, 1, shape=(3,)))
+element = basix.ufl.element("Lagrange", cell, 1)
+V = FunctionSpace(mesh, element)
+u, v = TrialFunction(V), TestFunction(V)
+w = Coefficient(V)
+c = Constant(mesh)
+a = c * inner(u, v) * dx + inner(u, v) * ds
+L = inner(w, v) * ds(1) + inner(c, v) * dx(2)
+M = w * dP + w * dx
+""",
+    "expr_only.py": """\
+import basix.ufl
+import numpy as np
+from ufl import Coefficient, Constant, FunctionSpace, Mesh, grad, sin
+
+cell = "tetrahedron"
+mesh = Mesh(basix.ufl.element("Lagrange", cell, 1, shape=(3,)))
+V = FunctionSpace(mesh, basix.ufl.element("Lagrange", cell, 2))
+T = Coefficient(V)
+alpha = Constant(mesh)
+heat_flux = -alpha * grad(T)
+src = sin(T) * alpha
+points = np.array([[0.1, 0.2, 0.3], [0.25, 0.25, 0.25]])
+expressions = [(heat_flux, points), (src, points), (T * T, points)]
+""",
+    "café - 2nd.order.py": """\
+import basix.ufl
+from ufl import Coefficient, FunctionSpace, Mesh, TestFunction, TrialFunction, dx, grad, inner, jump, dS, avg
+
+cell = "interval"
+mesh = Mesh(basix.ufl.element("Lagrange", cell, 1, shape=(1,)))
+V = FunctionSpace(mesh, basix.ufl.element("Discontinuous Lagrange", cell, 2))
+u, v = TrialFunction(V), TestFunction(V)
+f = Coefficient(V)
+J = inner(grad(u), grad(v)) * dx + inner(jump(u), jump(v)) * dS
+F = inner(f, v) * dx + inner(avg(f), avg(v)) * dS
+""",
+}
+
+
+def pair_corpus(tier: str, rng: random.Random) -> list[dict]:
+    demos = sorted(p for p in (common.REPO / "demo").glob("*.py")
+                   if p.name != "test_demos.py" and not p.stem.endswith("_numba"))
+    if not demos:
+        raise MachineryError("no demo UFL files found")
+
+    def stype(p, alt=False):
+        if "Complex" in p.stem:
+            return "complex64" if alt else "complex128"
+        if alt:
+            return rng.choice(["float32"] if p.stem in ("BiharmonicHHJ", "BiharmonicRegge", "StabilisedStokes")
+                              else ["float32", "complex128"])
+        return "float64"
+
+    jobs = []
+    gen = list(GENERATED_UFL)
+    if tier == "quick":
+        # (HyperElasticity alone costs as much as the rest of the quick tier: thorough only)
+        pick = rng.sample([p for p in demos if p.stem != "HyperElasticity"], 4)
+        jobs += [{"path": str(p), "scalar_type": stype(p)} for p in pick]
+        jobs += [{"generated": g, "scalar_type": "float64"} for g in gen]
+    else:
+        jobs += [{"path": str(p), "scalar_type": stype(p)} for p in demos]
+        jobs += [{"path": str(p), "scalar_type": stype(p, True)} for p in demos]
+        for g in gen:
+            jobs += [{"generated": g, "scalar_type": t} for t in ("float64", "float32", "complex128")]
+    # heavy files first so the pool drains evenly
+    jobs.sort(key=lambda j: 0 if "HyperElasticity" in j.get("path", "") else 1)
+    for i, j in enumerate(jobs):
+        j["id"] = i
+    return jobs
+
+
+def pair_judge(cases: list[dict]):
+    d = tlc.stage("pair-judge", ["CliPair", "CliPairJudge"])
+    cf = d / "cases.json"
+    cf.write_text(json.dumps(cases))
+    r = tlc.run(d, "CliPairJudge", cfg_text="SPECIFICATION JSpec\nINVARIANT Judge\n", workers=1,
+                env={"CASE_FILE": str(cf)}, timeout=900)
+    tlc.must_ok(r, "CliPairJudge")
+    if r.violated:
+        raise MachineryError("CliPairJudge stopped: " + str(r.violated) + "\n" + r.out[-2000:])
+    verdict: dict = {}
+    for v in printed_values(r.out, ("OK", "VIOL")):
+        if v[0] == "OK":
+            verdict.setdefault(v[1], [])
+        else:
+            verdict.setdefault(v[1], []).append((v[2], v[3]))
+    missing = [c["id"] for c in cases if c["id"] not in verdict]
+    if missing:
+        raise MachineryError(f"CliPairJudge gave no verdict for {missing[:10]}:\n{r.out[-1500:]}")
+    return verdict, r
+
+
+PAIR_FIELDS = ("id", "stem", "objects", "files", "generated", "compiles", "links", "cc_message", "declared",
+               "defined", "symbols", "aliases")
+
+
+def c20_pairs(chk, jobs: list[dict], name="c20-pair"):
+    t0 = time.time()
+    res = run_workers("pairworker", jobs, name, extra={"generated_ufl": GENERATED_UFL})
+    t1 = time.time()
+    byid = {r["id"]: r for r in res}
+    cases = []
+    for j in jobs:
+        r = byid.get(j["id"])
+        if r is None or "error" in r:
+            raise MachineryError(f"pair worker failed on {j}: {r and r.get('error')}")
+        cases.append(r)
+    verdict, tr = pair_judge([{k: c[k] for k in PAIR_FIELDS} for c in cases])
+    nker = sum(c["kernels_compared"] for c in cases)
+    chk.add(states=tr.distinct, transitions=tr.generated, traces_validated_against_impl=len(cases), evaluations=nker)
+    nz = [(c["label"], a["symbol"], a["ulps"]) for c in cases for a in c["aliases"] if a["ulps"] > 0]
+    px = [c["label"] for c in cases if c.get("posix_math")]
+    if px:
+        chk.note(f"compiled with -D_DEFAULT_SOURCE because the file uses POSIX Bessel functions: {px}")
+    chk.note(f"{len(cases)} UFL files through CLI + gcc -std=c17 -Wall -Werror + nm + dlopen + JIT: {t1 - t0:.1f}s; "
+             f"{nker} kernel pairs compared ({sum(c['kernels_nonzero'] for c in cases)} with finite non-zero tensors), "
+             f"{len(nz)} aliases with non-identical results"
+             + (f" (max {max(x[2] for x in nz)} ulps)" if nz else ""))
+    for c in cases:
+        for rule, detail in verdict[c["id"]]:
+            chk.violation(f"C20:pair:{rule}:{c['label']}", f"{c['label']}: clause {rule} fails: {detail[:300]}",
+                          {"kind": "pair", "job": next(j for j in jobs if j["id"] == c["id"]), "case": c})
+    return cases, verdict
+
+
+def c20_pair_controls(cases, verdict, rng) -> int:
+    good = [c for c in cases if not verdict[c["id"]] and c["aliases"]]
+    rng.shuffle(good)
+    mut = []
+    for c in good[:4]:
+        base = {k: c[k] for k in PAIR_FIELDS}
+        m1 = json.loads(json.dumps(base)); m1["declared"].append({"type": "ufcx_form", "name": "form_not_defined"})
+        m2 = json.loads(json.dumps(base)); m2["aliases"][0]["targets"] = [99]
+        m3 = json.loads(json.dumps(base)); m3["aliases"][0]["ulps"] = 10 ** 6
+        m4 = json.loads(json.dumps(base)); m4["aliases"] = m4["aliases"][1:]
+        m5 = json.loads(json.dumps(base)); m5["stem"] = m5["stem"] + ["-", "x"]
+        for m in (m1, m2, m3, m4, m5):
+            m["id"] = len(mut)
+            mut.append(m)
+    if not mut:
+        return 0
+    v, _ = pair_judge(mut)
+    if any(not v[m["id"]] for m in mut):
+        raise MachineryError("negative control: CliPairJudge accepted a corrupted case")
+    return len(mut)
+
+
+def c20_run(chk):
+    common.ensure_repo_on_path()
+    rng = random.Random(chk.seed)
+    quick = chk.tier == "quick"
+    opt_model_check(chk, 3 if quick else 5)
+    cases, verdict = c20_options(chk, rng, 40 if quick else 405)
+    nctl = c20_option_controls(cases, verdict, rng)
+    jobs = pair_corpus(chk.tier, rng)
+    pcases, pverdict = c20_pairs(chk, jobs)
+    nctl += c20_pair_controls(pcases, pverdict, rng)
+    distinct = len({json.dumps(c["cfg"], sort_keys=True) for c in cases
+                    if sum(1 for o in OPT_ORDER for s in ("cli", "pwd", "user") if c["cfg"][o][s] != "unset") >= 2})
+    chk.add(distinct_nontrivial=distinct + len(pcases), controls_rejected=nctl,
+            rule="option cases: one per configuration (per option and source: unset or a value), each option cycling "
+                 "through all its TLC-emitted assignments in seed-shuffled order, run as a fresh `python -m ffcx` with "
+                 "scratch $XDG_CONFIG_HOME and cwd; non-trivial = >=2 (option, source) pairs set. pair cases: one per "
+                 "(UFL file, scalar type): repo demos and generated files (several named/unnamed forms, expressions, "
+                 "odd stems, prism).",
+            samples=[" ".join(c["obs"]["argv"]) + " | pwd=" + json.dumps({o: c["cfg"][o]["pwd"] for o in OPT_ORDER
+                                                                         if c["cfg"][o]["pwd"] != "unset"})
+                     for c in cases[:4]] + [c["label"] for c in pcases[:4]])
+    chk.assumptions += [
+        "table_rtol has no behavioural witness on the probe form: judged from the banner only",
+        "the banner of the generated file records the option values the compiler used (cross-checked behaviourally "
+        "for scalar_type, sum_factorization, part, language)",
+        "kernel comparison CLI vs JIT: same gcc, -O0 both; 'equal to rounding' = within CliPair!MaxUlps of the "
+        "largest entry",
+        "header declarations scanned with a regular expression (extern ufcx_* [*]name;), object-file symbols by nm",
+    ]
+
+
+def c20_replay(chk, path):
+    common.ensure_repo_on_path()
+    doc = json.loads(Path(path).read_text())
+    pl = doc["payload"]
+    if pl.get("kind") == "options":
+        c20_options(chk, random.Random(0), 1, configs=[pl["cfg"]])
+    else:
+        job = dict(pl["job"], id=0)
+        c20_pairs(chk, [job], "c20-replay")
+
+
+# ---------------------------------------------------------------------------
+# pair worker (child process)
+
+_DECL_RE = re.compile(r"^\s*extern\s+(ufcx_\w+)\s*(\*?)\s*(\w+)\s*;", re.M)
+_DEF_RE = re.compile(r"^(ufcx_\w+)\s*(\*?)\s*(\w+)\s*=", re.M)
+C_TYPES = {"float32": "float", "float64": "double", "complex64": "float _Complex", "complex128": "double _Complex"}
+
+
+def _real(t):
+    return {"float32": "float32", "float64": "float64", "complex64": "float32", "complex128": "float64"}[t]
+
+
+def _ulps(a, b, dtype) -> int:
+    import numpy as np
+    if a.shape != b.shape:
+        return 10 ** 9
+    nan_a, nan_b = np.isnan(a), np.isnan(b)
+    if (nan_a != nan_b).any():
+        return 10 ** 9
+    ok = ~nan_a
+    if not ok.any():
+        return 0
+    a, b = a[ok], b[ok]
+    inf = np.isinf(a) | np.isinf(b)
+    if inf.any() and not np.array_equal(a[inf], b[inf]):
+        return 10 ** 9
+    a, b = a[~inf], b[~inf]
+    if a.size == 0:
+        return 0
+    diff = float(np.max(np.abs(a - b)))
+    if diff == 0.0:
+        return 0
+    scale = float(max(np.max(np.abs(a)), np.max(np.abs(b))))
+    eps = float(np.finfo(_real(dtype)).eps)
+    return int(min(10 ** 9, -(-diff // (eps * scale))))
+
+
+class _Inputs:
+    """Fixed kernel inputs for one UFL object (identical for the CLI and the JIT kernel)."""
+
+    def __init__(self, dtype, arg_dims, coef_dims, const_sizes, coord_points, extra_A=1):
+        import numpy as np
+        rs = np.random.RandomState(20240923)
+        cplx = dtype.startswith("complex")
+        n = 16
+        for d in arg_dims:
+            n *= 2 * d
+        self.nA = n * extra_A
+        nw, nc = 2 * sum(coef_dims) + 16, sum(const_sizes) + 16
+        self.w = (rs.uniform(0.5, 1.5, nw) + (1j * rs.uniform(-0.5, 0.5, nw) if cplx else 0)).astype(dtype)
+        self.c = (rs.uniform(0.5, 1.5, nc) + (1j * rs.uniform(-0.5, 0.5, nc) if cplx else 0)).astype(dtype)
+        pts = np.zeros((coord_points.shape[0], 3))
+        pts[:, :coord_points.shape[1]] = coord_points
+        Mx = np.eye(3) + 0.1 * np.array([[0.3, 0.1, 0.0], [-0.2, 0.2, 0.1], [0.1, -0.1, 0.25]])
+        x = pts @ Mx.T + np.array([0.5, -0.25, 0.125])
+        self.x = np.concatenate([x.ravel(), x.ravel(), np.zeros(64)]).astype(_real(dtype))
+        self.e = np.zeros(4, dtype=np.int32)
+        self.perm = np.zeros(4, dtype=np.uint8)
+        self.dtype = dtype
+
+    def call(self, ffi, kernel):
+        import numpy as np
+        A = np.zeros(self.nA, dtype=self.dtype)
+        ct, rt = C_TYPES[self.dtype], C_TYPES[_real(self.dtype)]
+        kernel(ffi.cast(f"{ct} *", A.ctypes.data), ffi.cast(f"{ct} *", self.w.ctypes.data),
+               ffi.cast(f"{ct} *", self.c.ctypes.data), ffi.cast(f"{rt} *", self.x.ctypes.data),
+               ffi.cast("int *", self.e.ctypes.data), ffi.cast("uint8_t *", self.perm.ctypes.data), ffi.NULL)
+        return A
+
+
+def _coord_points(domain):
+    import numpy as np
+    ce = domain.ufl_coordinate_element()
+    be = getattr(ce, "basix_element", None)
+    if be is None:
+        be = ce.sub_elements[0].basix_element
+    return np.asarray(be.points)
+
+
+def _form_desc(ffi, F, nk=None):
+    """Descriptor fields that must agree between the CLI-built and the JIT-built ufcx_form."""
+    nco, nc, rank = int(F.num_coefficients), int(F.num_constants), int(F.rank)
+    off = [int(F.form_integral_offsets[i]) for i in range(6)]
+    n = off[5]
+    return {
+        "rank": rank, "num_coefficients": nco, "num_constants": nc, "offsets": off,
+        "ocp": [int(F.original_coefficient_positions[i]) for i in range(nco)],
+        "constant_ranks": [int(F.constant_ranks[i]) for i in range(nc)],
+        "constant_shapes": [[int(F.constant_shapes[i][j]) for j in range(int(F.constant_ranks[i]))] for i in range(nc)],
+        "hashes": [int(F.finite_element_hashes[i]) for i in range(rank + nco)],
+        "ids": [int(F.form_integral_ids[i]) for i in range(n)],
+        "domains": [int(F.form_integrals[i].domain) for i in range(n)],
+        "nfp": [bool(F.form_integrals[i].needs_facet_permutations) for i in range(n)],
+        "ceh": [int(F.form_integrals[i].coordinate_element_hash) for i in range(n)],
+        "enabled": [[bool(F.form_integrals[i].enabled_coefficients[j]) for j in range(nco)] for i in range(n)],
+    }
+
+
+def _expr_desc(ffi, E):
+    npts, edim, ncomp = int(E.num_points), int(E.entity_dimension), int(E.num_components)
+    return {
+        "num_coefficients": int(E.num_coefficients), "num_constants": int(E.num_constants), "num_points": npts,
+        "entity_dimension": edim, "num_components": ncomp, "rank": int(E.rank),
+        "value_shape": [int(E.value_shape[i]) for i in range(ncomp)],
+        "ocp": [int(E.original_coefficient_positions[i]) for i in range(int(E.num_coefficients))],
+        "points": [float(E.points[i]) for i in range(npts * edim)],
+        "ceh": int(E.coordinate_element_hash),
+    }
+
+
+def pair_case(job: dict, root: Path, generated_ufl: dict) -> dict:
+    import shutil
+
+    import cffi
+    import numpy as np
+    import ufl
+    import ufl.algorithms
+    import ffcx.codegeneration.jit as jit
+
+    d = root / f"pair{job['id']}"
+    d.mkdir(parents=True)
+    if "generated" in job:
+        fname = job["generated"]
+        (d / fname).write_text(generated_ufl[fname])
+    else:
+        fname = Path(job["path"]).name
+        shutil.copy(job["path"], d / fname)
+    T = job["scalar_type"]
+    stem = Path(fname).stem
+    out = {"id": job["id"], "label": f"{fname}[{T}]", "stem": list(stem), "objects": [], "files": [],
+           "generated": False, "compiles": False, "links": False, "cc_message": "", "declared": [], "defined": [],
+           "symbols": [], "aliases": [], "kernels_compared": 0, "kernels_nonzero": 0}
+    before = set(os.listdir(d))
+    p = subprocess.run([common.PY, "-m", "ffcx", "--scalar_type", T, fname], cwd=str(d), capture_output=True, text=True)
+    out["files"] = sorted(set(os.listdir(d)) - before)
+    # the UFL objects, loaded the way the command line loads them (trusted: ufl.algorithms.load_ufl_file)
+    ufd = ufl.algorithms.load_ufl_file(str(d / fname))
+    forms, exprs = list(ufd.forms), list(ufd.expressions)
+    names = ufd.object_names
+    out["objects"] = [{"kind": "form", "name": names.get(id(f), "")} for f in forms] + \
+                     [{"kind": "expression", "name": names.get(id(e[0]), "")} for e in exprs]
+    if p.returncode != 0:
+        out["cc_message"] = p.stderr[-400:]
+        return out
+    out["generated"] = True
+    hs = [f for f in out["files"] if f.endswith(".h")]
+    cs = [f for f in out["files"] if f.endswith(".c")]
+    if len(hs) != 1 or len(cs) != 1:
+        return out
+    htxt, ctxt = (d / hs[0]).read_text(), (d / cs[0]).read_text()
+    out["declared"] = [{"type": m.group(1) + m.group(2), "name": m.group(3)} for m in _DECL_RE.finditer(htxt)]
+    out["defined"] = [{"type": m.group(1) + m.group(2), "name": m.group(3)} for m in _DEF_RE.finditer(ctxt)]
+    inc = str(common.REPO / "ffcx" / "codegeneration")
+    obj = d / "pair.o"
+    cc = subprocess.run(["gcc", "-std=c17", "-Wall", "-Werror", "-fPIC", "-O0", f"-I{inc}", "-c", cs[0], "-o", str(obj)],
+                        cwd=str(d), capture_output=True, text=True)
+    if cc.returncode != 0:
+        # jn/yn (bessel_J/bessel_Y) are POSIX, not ISO C: -std=c17 hides them.  That strictness is this check's
+        # choice, not the property's (the repo's demo test tolerates it too), so such a file is recompiled with
+        # the POSIX names visible; any other diagnostic stays a failure.
+        diags = [ln for ln in cc.stderr.splitlines() if "error:" in ln]
+        if diags and all(re.search(r"implicit declaration of function .(jn|yn|j0|j1|y0|y1).", ln) for ln in diags):
+            out["posix_math"] = True
+            cc = subprocess.run(["gcc", "-std=c17", "-D_DEFAULT_SOURCE", "-Wall", "-Werror", "-fPIC", "-O0", f"-I{inc}",
+                                 "-c", cs[0], "-o", str(obj)], cwd=str(d), capture_output=True, text=True)
+    if cc.returncode != 0:
+        out["cc_message"] = cc.stderr[:400]
+        return out
+    out["compiles"] = True
+    nm = subprocess.run(["nm", "--defined-only", str(obj)], capture_output=True, text=True, check=True)
+    for ln in nm.stdout.splitlines():
+        parts = ln.split()
+        if len(parts) >= 3:
+            k = parts[-2]
+            out["symbols"].append({"name": parts[-1], "external": k.isupper(), "kind": "function" if k in "Tt" else "object"})
+    so = d / "libpair.so"
+    ld = subprocess.run(["gcc", "-shared", str(obj), "-o", str(so), "-lm"], cwd=str(d), capture_output=True, text=True)
+    if ld.returncode != 0:
+        out["cc_message"] = ld.stderr[:400]
+        return out
+    ffi = cffi.FFI()
+    aliases = [x for x in out["declared"] if x["type"] in ("ufcx_form*", "ufcx_expression*")]
+    ffi.cdef(jit.UFC_HEADER_DECL.format(np.dtype(T).name) + jit.UFC_INTEGRAL_DECL + jit.UFC_FORM_DECL
+             + jit.UFC_EXPRESSION_DECL
+             + "".join(f"extern {x['type'][:-1]} *{x['name']};\n" for x in aliases))
+    try:
+        lib = ffi.dlopen(str(so))
+    except OSError as e:
+        out["cc_message"] = str(e)[:400]
+        return out
+    out["links"] = True
+    # the JIT path on the same objects
+    cache = d / "jit"
+    jforms, jexprs, jmodf, jmode = [], [], None, None
+    if forms:
+        jforms, jmodf, _ = jit.compile_forms(list(forms), options={"scalar_type": T}, cffi_extra_compile_args=["-O0"],
+                                             cache_dir=cache)
+    if exprs:
+        jexprs, jmode, _ = jit.compile_expressions([(e[0], e[1]) for e in exprs], options={"scalar_type": T},
+                                                   cffi_extra_compile_args=["-O0"], cache_dir=cache)
+    sigs = [f.signature() for f in forms]
+    tt = f"tabulate_tensor_{np.dtype(T).name}"
+
+    def form_inputs(f):
+        args = sorted(f.arguments(), key=lambda a: (a.number(), a.part() or 0))
+        dom = f.integrals()[0].ufl_domain()
+        return _Inputs(T, [a.ufl_function_space().ufl_element().dim for a in args],
+                       [c.ufl_element().dim for c in f.coefficients()],
+                       [int(np.prod(c.ufl_shape)) if c.ufl_shape else 1 for c in f.constants()], _coord_points(dom))
+
+    for x in aliases:
+        sym = x["name"]
+        rec = {"symbol": sym, "kind": "form" if x["type"] == "ufcx_form*" else "expression", "targets": [],
+               "same_descriptor": False, "ulps": 0, "coefficient_names": [], "constant_names": []}
+        out["aliases"].append(rec)
+        ptr = getattr(lib, sym)
+        if ptr == ffi.NULL:
+            continue
+        if rec["kind"] == "form":
+            sig = ffi.string(ptr.signature).decode()
+            cands = [k for k, s in enumerate(sigs) if s == sig]
+            dc = _form_desc(ffi, ptr)
+            good = []
+            for k in cands:
+                dj = _form_desc(jmodf.ffi, jforms[k])
+                if dj != dc:
+                    continue
+                inp = form_inputs(forms[k])
+                worst = 0
+                for i in range(dc["offsets"][5]):
+                    kc, kj = getattr(ptr.form_integrals[i], tt), getattr(jforms[k].form_integrals[i], tt)
+                    if kc == ffi.NULL or kj == jmodf.ffi.NULL:
+                        worst = 10 ** 9
+                        continue
+                    inp.e[:] = 0
+                    Ac, Aj = inp.call(ffi, kc), inp.call(jmodf.ffi, kj)
+                    worst = max(worst, _ulps(Ac, Aj, T))
+                    out["kernels_compared"] += 1
+                    out["kernels_nonzero"] += int(bool(np.any(Ac != 0)) and bool(np.all(np.isfinite(Ac))))
+                good.append((k, worst))
+            if good:
+                rec["same_descriptor"] = True
+                rec["ulps"] = min(w for _, w in good)
+                rec["targets"] = [k + 1 for k, w in good]
+                k = good[0][0]
+                oc = forms[k].coefficients()
+                rec["coefficient_names"] = [
+                    {"decl": names.get(id(oc[dc["ocp"][j]]), "") if dc["ocp"][j] < len(oc) else "?",
+                     "obs": ffi.string(ptr.coefficient_name_map[j]).decode()} for j in range(dc["num_coefficients"])]
+                rec["constant_names"] = [
+                    {"decl": names.get(id(c), ""), "obs": ffi.string(ptr.constant_name_map[j]).decode()}
+                    for j, c in enumerate(forms[k].constants()[:dc["num_constants"]])]
+            else:
+                rec["targets"] = [k + 1 for k in cands]   # bound by signature, but descriptor differs from JIT
+        else:
+            dc = _expr_desc(ffi, ptr)
+            good = []
+            for k, (ex, pts) in enumerate((e[0], e[1]) for e in exprs):
+                dj = _expr_desc(jmode.ffi, jexprs[k])
+                if dj != dc:
+                    continue
+                argdims = [a.ufl_function_space().ufl_element().dim for a in ufl.algorithms.extract_arguments(ex)]
+                coefs = ufl.algorithms.extract_coefficients(ex)
+                consts = ufl.algorithms.analysis.extract_constants(ex)
+                doms = ufl.domain.extract_domains(ex)
+                inp = _Inputs(T, argdims, [c.ufl_element().dim for c in coefs],
+                              [int(np.prod(c.ufl_shape)) if c.ufl_shape else 1 for c in consts],
+                              _coord_points(doms[0]) if doms else np.zeros((1, 1)),
+                              extra_A=max(1, dc["num_points"]) * max(1, int(np.prod(dc["value_shape"] or [1]))))
+                Ac, Aj = inp.call(ffi, getattr(ptr, tt)), inp.call(jmode.ffi, getattr(jexprs[k], tt))
+                w = _ulps(Ac, Aj, T)
+                out["kernels_compared"] += 1
+                out["kernels_nonzero"] += int(bool(np.any(Ac != 0)) and bool(np.all(np.isfinite(Ac))))
+                good.append((k, w))
+            if good:
+                best = min(w for _, w in good)
+                ex0 = exprs[good[0][0]][0]
+                oc = ufl.algorithms.extract_coefficients(ex0)
+                rec["coefficient_names"] = [
+                    {"decl": names.get(id(oc[dc["ocp"][j]]), "") if dc["ocp"][j] < len(oc) else "?",
+                     "obs": ffi.string(ptr.coefficient_names[j]).decode()} for j in range(dc["num_coefficients"])]
+                rec["constant_names"] = [
+                    {"decl": names.get(id(c), ""), "obs": ffi.string(ptr.constant_names[j]).decode()}
+                    for j, c in enumerate(ufl.algorithms.analysis.extract_constants(ex0)[:dc["num_constants"]])]
+                rec["same_descriptor"] = True
+                rec["ulps"] = best
+                # an expression has no signature field: it is bound to the objects whose data and values it reproduces
+                rec["targets"] = [len(forms) + k + 1 for k, w in good if w == best]
+    return out
+
+
+def pair_worker(job: dict) -> list:
+    root = Path(job["cache_dir"])
+    res = []
+    for j in job["jobs"]:
+        try:
+            res.append(pair_case(j, root, job.get("generated_ufl", {})))
+        except Exception as e:  # noqa: BLE001
+            import traceback
+            res.append({"id": j["id"], "error": f"{type(e).__name__}: {e}\n{traceback.format_exc()[-1500:]}"})
+    return res
+
+
+# ===========================================================================
 # worker dispatch
 
 
@@ -567,7 +1338,7 @@ def _main(argv):
     kind, jf, of = argv[1], argv[2], argv[3]
     job = json.loads(Path(jf).read_text())
     common.ensure_repo_on_path()
-    res = {"c06worker": c06_worker}[kind](job)
+    res = {"c06worker": c06_worker, "pairworker": pair_worker}[kind](job)
     tmp = of + ".tmp"
     Path(tmp).write_text(json.dumps(res))
     os.replace(tmp, of)
